@@ -107,5 +107,5 @@ def run(env: Env) -> Outcome:
     suite.live_runs(env, out, env.budget(400, 8000), [monitors.mon_c03, c03x.mon_c03_runner], extra_specs=suite.load_corpus("C03"))
     _resume_runs(env, out, env.budget(150, 3000))
     c03x.rewind_stream(env, out, env.budget(600, 12000))
-    c03x.server_idle_side(env, out, env.budget(25, 500))
+    c03x.server_idle_side(env, out, env.budget(20, 400))
     return out
